@@ -393,7 +393,8 @@ type World struct {
 	log     []logItem
 	invokes []hx.Zs
 	nInv    atomic.Int64
-	nCbs    int // callbacks registered so far (waiting is only needed when > 0)
+	nCbs    int           // callbacks registered so far (waiting is only needed when > 0)
+	gate    chan struct{} // callback 7 is slow: it blocks until the current operation waits for quiescence
 	local   *spine.DeviceLocal
 	ents    map[string]api.EntityLocalInterface
 	peers   map[int64]*peerRec
@@ -664,6 +665,8 @@ type Dgram struct {
 	Err      int64 // resultData.errorNumber
 	Cls      int64 // 0 read 1 reply 2 notify 3 write 4 call
 	Pl       Payload
+	Fct      int64 // the cmd's function element: 0 absent, 1 the data's function, 2 empty, 3 another function
+	Sel      int64 // read restriction (reads of data functions only): 0 none, 1 selectors, 2 elements
 }
 
 func b2i(b bool) int64 {
@@ -680,7 +683,7 @@ func OpInbound(p int64, d Dgram) hx.Zs {
 	z = append(z, d.Dst.Enc()...)
 	z = append(z, d.Ctr, d.Ref, b2i(d.Ack))
 	if d.Result {
-		return append(z, 0, d.Err)
+		return append(z, 0, d.Err, d.Fct, 0)
 	}
 	z = append(z, 1, d.Cls, d.Pl.Kind)
 	switch d.Pl.Kind {
@@ -695,7 +698,7 @@ func OpInbound(p int64, d Dgram) hx.Zs {
 		z = append(z, d.Pl.Call.Srv.Enc()...)
 		z = append(z, d.Pl.Call.Type)
 	}
-	return z
+	return append(z, d.Fct, d.Sel)
 }
 
 func (r *rd) dgram() Dgram {
@@ -708,6 +711,7 @@ func (r *rd) dgram() Dgram {
 	if r.n() == 0 {
 		d.Result = true
 		d.Err = r.n()
+		r.tail(&d)
 		return d
 	}
 	d.Cls = r.n()
@@ -725,7 +729,16 @@ func (r *rd) dgram() Dgram {
 		d.Pl.Call.Srv = r.faddr()
 		d.Pl.Call.Type = r.n()
 	}
+	r.tail(&d)
 	return d
+}
+
+// the function element and the read restriction follow the body; older recordings end with the body
+func (r *rd) tail(d *Dgram) {
+	if r.i < len(r.z) {
+		d.Fct = r.n()
+		d.Sel = r.n()
+	}
 }
 
 var classifiers = []model.CmdClassifierType{model.CmdClassifierTypeRead, model.CmdClassifierTypeReply,
@@ -783,7 +796,82 @@ func (d Dgram) datagram() model.DatagramType {
 			cmd.NodeManagementDestinationListData = &model.NodeManagementDestinationListDataType{}
 		}
 	}
+	if !d.Result && d.Cls == 0 && d.Pl.Kind == 0 && d.Sel != 0 {
+		cmd = filteredRead(d.Pl.Fn, d.Sel)
+	}
+	if d.Fct != 0 {
+		var fn model.FunctionType
+		if cd, err := cmd.Data(); err == nil && cd.Function != nil {
+			fn = *cd.Function
+		}
+		switch d.Fct {
+		case 1:
+			cmd.Function = util.Ptr(fn)
+		case 2:
+			cmd.Function = util.Ptr(model.FunctionType(""))
+		default:
+			other := model.FunctionTypeAlarmListData
+			if fn == other {
+				other = model.FunctionTypeMeasurementListData
+			}
+			cmd.Function = util.Ptr(other)
+		}
+	}
 	return model.DatagramType{Header: h, Payload: model.PayloadType{Cmd: []model.CmdType{cmd}}}
+}
+
+// filterArg builds the function's selectors (typ "selector") or elements (typ "elements") value:
+// the type of the FilterType field tagged with the function, with its first leaf set.
+func filterArg(fct model.FunctionType, typ model.EEBusTagTypeType) any {
+	t := reflect.TypeOf(model.FilterType{})
+	for i := 0; i < t.NumField(); i++ {
+		sf := t.Field(i)
+		tags := model.EEBusTags(sf)
+		if model.FunctionType(tags[model.EEBusTagFunction]) != fct || tags[model.EEBusTagType] != string(typ) || sf.Type.Kind() != reflect.Ptr {
+			continue
+		}
+		v := reflect.New(sf.Type.Elem())
+		if typ == model.EEBusTagTypeTypeSelector {
+			setTok(v.Elem(), 1, 0)
+		} else {
+			for j := 0; j < v.Elem().NumField(); j++ {
+				f := v.Elem().Field(j)
+				if f.Kind() == reflect.Ptr && f.CanSet() {
+					f.Set(reflect.New(f.Type().Elem()))
+					break
+				}
+			}
+		}
+		return v.Interface()
+	}
+	return nil
+}
+
+// filteredRead is the read cmd this stack itself puts on the wire for a read restricted by a selector
+// (sel 1) or by elements (sel 2): FunctionDataCmd.ReadCmdType — the function's empty data element, a
+// partial filter, and a function element that is present but empty.
+func filteredRead(fn, sel int64) model.CmdType {
+	fct := Fns[fn]
+	for _, fd := range spine.CreateFunctionData[api.FunctionDataCmdInterface](model.FeatureTypeTypeGeneric) {
+		if fd.FunctionType() != fct {
+			continue
+		}
+		var selector, elements any
+		if sel == 1 {
+			selector = filterArg(fct, model.EEBusTagTypeTypeSelector)
+		} else {
+			elements = filterArg(fct, model.EEbusTagTypeTypeElements)
+		}
+		if selector == nil && elements == nil {
+			break // the function has no such filter field
+		}
+		stats["filtered-read-cmds-built-by-ReadCmdType"]++
+		return fd.ReadCmdType(selector, elements)
+	}
+	c := CmdFor(fn, 0)
+	c.Function = util.Ptr(model.FunctionType(""))
+	c.Filter = []model.FilterType{{CmdControl: &model.CmdControlType{Partial: &model.ElementTagType{}}}}
+	return c
 }
 
 // InjectRaw delivers bytes to peer p's reader; a panic of the stack becomes the
@@ -835,7 +923,16 @@ func (w *World) cb3(m api.ResponseMessage) { w.invoked(3, m) }
 func (w *World) cb4(m api.ResponseMessage) { w.invoked(4, m) }
 func (w *World) cb5(m api.ResponseMessage) { w.invoked(5, m) }
 func (w *World) cb6(m api.ResponseMessage) { w.invoked(6, m) }
-func (w *World) cb7(m api.ResponseMessage) { w.invoked(7, m) }
+func (w *World) cb7(m api.ResponseMessage) {
+	// the slow application callback: it only gets on with its work when the operation is over
+	w.mu.Lock()
+	g := w.gate
+	w.mu.Unlock()
+	if g != nil {
+		<-g
+	}
+	w.invoked(7, m)
+}
 
 const NCallbacks = 8
 
@@ -865,6 +962,12 @@ func (w *World) callback(i int64) func(api.ResponseMessage) {
 // then shows up one operation late); a goroutine that does not finish within 30 s is reported as
 // an observation outside the vocabulary.
 func (w *World) settle(base int) {
+	w.mu.Lock()
+	if w.gate != nil {
+		close(w.gate) // the slow callback may proceed
+		w.gate = nil
+	}
+	w.mu.Unlock()
 	if w.nCbs == 0 {
 		return
 	}
@@ -964,6 +1067,11 @@ func (w *World) localFeature(e []int64, f int64) api.FeatureLocalInterface {
 // Exec runs one encoded operation and returns the observations.
 func (w *World) Exec(op hx.Zs) []hx.Zs {
 	base := runtime.NumGoroutine()
+	if len(op) > 0 && (op[0] == 8 || op[0] == 12 || op[0] == 13) {
+		w.mu.Lock()
+		w.gate = make(chan struct{})
+		w.mu.Unlock()
+	}
 	r := &rd{z: op}
 	code := r.n()
 	var ret []hx.Zs
@@ -1059,6 +1167,33 @@ func (w *World) Exec(op hx.Zs) []hx.Zs {
 		}
 		fl.AddResultCallback(w.callback(cb))
 		w.nCbs++
+	case 13: // SeqArrive: arrivals back to back, the callbacks they start are not waited for in between
+		n := r.n()
+		for i := int64(0); i < n; i++ {
+			p := r.n()
+			l := r.n()
+			sub := &rd{z: r.z[r.i:min(len(r.z), r.i+int(l))]}
+			r.i += int(l)
+			d := sub.dgram()
+			b, err := json.Marshal(model.Datagram{Datagram: d.datagram()})
+			if err != nil {
+				panic(err)
+			}
+			w.InjectRaw(p, b)
+			stats["back-to-back-arrivals"]++
+		}
+		w.settle(base)
+		stats["back-to-back-operations"]++
+		var out []hx.Zs
+		for _, o := range w.drain() {
+			if len(o) > 0 && (o[0] == 3 || o[0] == 97) {
+				out = append(out, o)
+				if o[0] == 3 {
+					stats["callback-invocations"]++
+				}
+			}
+		}
+		return out
 	case 12: // ParArrive: overlapping arrivals of one datagram on several connections, racing with a registration
 		late, pf := r.n(), r.n()
 		ps := r.eaddr()
@@ -1176,6 +1311,10 @@ func account(op hx.Zs, out []hx.Zs) {
 		cls = []string{"read", "reply", "notify", "write", "call"}[d.Cls]
 	}
 	stats["datagram:"+cls]++
+	stats[fmt.Sprintf("datagram:function-element-%d", d.Fct)]++
+	if !d.Result && d.Cls == 0 && d.Pl.Kind == 0 && d.Sel != 0 {
+		stats["datagram:filtered-read"]++
+	}
 	if d.Ack {
 		stats["datagram:ackRequest"]++
 	}
